@@ -85,7 +85,7 @@ theorem src_addblocks_validates_before_store :
 /-- `AddBlocks` skips (with `continue`) a block it already has and a block whose header is present
 while its body is not (pruned), before any validation -/
 theorem src_addblocks_skips_known_and_pruned :
-    hasInfix [isCall "m.store.Block", (· == .ifc [] ["!="]), isCall "m.store.State", (· == .cont), (· == .els),
+    hasInfix [isCall "m.store.Block", (· == .ifc [] ["!="]), isCall "m.store.State", (· == .cont), (· == .done),
               isCall "m.store.Header", (· == .ifc [] ["&&", "!"]), isCall "m.store.State", (· == .cont)] skel_AddBlocks = true ∧
     firstBefore (isCall "m.store.Header") (isCall "consensus.ValidateOrphan") skel_AddBlocks = true := by decide
 
@@ -124,8 +124,9 @@ theorem src_applyTip_shape :
 /-- a block that does not attach to the tip is a programming error (`panic`), not a state change:
 the check precedes every store access other than the read of the block -/
 theorem src_applyTip_attach_check_first :
-    matchPrefix [isCall "m.store.Block", (· == .ifc [] ["!"]), isRet ["E"], (· == .els),
-      (· == .ifc ["m.tipState.Index.ID"] ["!="]), (· == .panic)] skel_applyTip = true := by decide
+    matchPrefix [isCall "m.store.Block", (· == .ifc [] ["!"]), isRet ["E"], (· == .done),
+      (fun t => match t with | .ifc _ ["!="] => true | _ => false), (· == .panic), (· == .done)] skel_applyTip = true ∧
+    (skel_applyTip.filter (· == .panic)).length = 1 := by decide
 
 /-- `revertTip`: reads block and parent state, reverts in the store, then assigns the tip -/
 theorem src_revertTip_shape :
@@ -155,10 +156,10 @@ height-levelling loops and the joint loop return as soon as it fails -/
 theorem src_reorgPath_shape :
     matchPrefix [(· == .fn), (· == .ifc ["len()", "len()", "maxLen"] ["+", ">"]), isRet ["false"], (· == .done),
       isCall "m.store.Header"] skel_reorgPath = true ∧
-    hasInfix [(· == .loop ["a", "b"] [">"]), isCall "rewind", (· == .ifc ["rewind()", "a"] ["!"]), isRet []] skel_reorgPath = true ∧
-    hasInfix [(· == .loop ["b", "a"] [">"]), isCall "rewind", (· == .ifc ["rewind()", "b"] ["!"]), isRet []] skel_reorgPath = true ∧
-    hasInfix [(· == .loop ["a", "b"] ["!="]), isCall "rewind", isCall "rewind",
-      (· == .ifc ["rewind()", "a", "rewind()", "b"] ["!", "||", "!"]), isRet []] skel_reorgPath = true ∧
+    hasInfix [(· == .loop ["a", "b"] [">"]), isCall "closure1", (· == .ifc ["closure1()", "a"] ["!"]), isRet []] skel_reorgPath = true ∧
+    hasInfix [(· == .loop ["b", "a"] [">"]), isCall "closure1", (· == .ifc ["closure1()", "b"] ["!"]), isRet []] skel_reorgPath = true ∧
+    hasInfix [(· == .loop ["a", "b"] ["!="]), isCall "closure1", isCall "closure1",
+      (· == .ifc ["closure1()", "a", "closure1()", "b"] ["!", "||", "!"]), isRet []] skel_reorgPath = true ∧
     occurs isStoreWrite skel_reorgPath = false ∧ occurs isSet skel_reorgPath = false := by decide
 
 
@@ -204,11 +205,14 @@ theorem src_ancestor_timestamp_of_parent :
 the best-chain index (then stop) or one parent link; the timestamp is read once, AFTER the loop,
 from the record the walk ended on -/
 theorem src_store_ancestor_timestamp_shape :
-    matchPrefix [isCall "db.State", (· == .ifc ["db.n.HardforkOak.Height"] [">"]), isRet ["v", "true"], (· == .done)]
+    skel_DBStore_AncestorTimestamp.head? = some (.call "db.State" []) ∧
+    hasInfix [(· == .ifc ["db.n.HardforkOak.Height"] [">"]), isRet ["v", "true"], (· == .done)]
       skel_DBStore_AncestorTimestamp = true ∧
-    occurs (· == .loop [".AncestorDepth()"] ["<", "&&", "<", "++"]) skel_DBStore_AncestorTimestamp = true ∧
+    firstBefore (· == .ifc ["db.n.HardforkOak.Height"] [">"]) isLoop skel_DBStore_AncestorTimestamp = true ∧
+    occurs (fun t => match t with | .loop _ ["<", "&&", "<", "++"] => true | _ => false) skel_DBStore_AncestorTimestamp = true ∧
     (skel_DBStore_AncestorTimestamp.filter isLoop).length = 1 ∧
-    hasInfix [isCall "getBestID", (· == .ifc ["getBestID()"] ["==", "-"])] skel_DBStore_AncestorTimestamp = true ∧
+    hasInfix [isCall "closure1", (fun t => match t with | .ifc _ ["==", "-"] => true | _ => false)]
+      skel_DBStore_AncestorTimestamp = true ∧
     hasInfix [(· == .brk), (· == .done), isCall "db.getAncestorInfo", (· == .done), isCall "db.getAncestorInfo", isRet []]
       skel_DBStore_AncestorTimestamp = true ∧
     (callNames skel_DBStore_AncestorTimestamp).count "db.getAncestorInfo" = 2 ∧
